@@ -12,7 +12,7 @@ Decided:
               process_expression / an explicit error)                                             [T3]
 Not decided: number/string literal text (C13), null handling inside arrays, YAML/TOML specifics.
 """
-from .. import thir, guards
+from .. import thir, guards, interproc
 from ..thir import callee_of
 from . import c09
 
@@ -43,11 +43,12 @@ def ident(R, ctx):
         fn = lib.fn(path)
         if not R.require(rid, "anchor:" + path.split("::")[-1], fn is not None, "", "%s not found" % path):
             continue
-        fa = ctx.an.fa(fn["path"])
         short = "%s::%s" % (path.split("::")[-2].rstrip(">"), path.split("::")[-1])
         k = 0
-        for c in thir.walk(thir.body_of(fn)):
-            if c.get("k") != "Call" or c.get("fn") not in CTORS:
+        # the function and the private helpers of the same file it calls (the construction may be extracted)
+        for f2, c in interproc.scope_calls(lib, fn):
+            fa = ctx.an.fa(f2["path"])
+            if fa is None or c.get("fn") not in CTORS:
                 continue
             a = c["args"][CTORS[c["fn"]]]
             ts = lib.ty_str(lib.strip_refs(a["t"]))
@@ -62,14 +63,14 @@ def ident(R, ctx):
             by_chain = any(y.get("fname") == "filter" and any(IVI(z) for cl in y["args"] if cl.get("k") == "Closure" for z in thir.walk(cl["body"]["body"]))
                            for y in ctx.an.deep_source_calls(fa, a))
             ok = by_branch or by_chain
-            R.ob(rid, "%s|%s@%d" % (short, c["fn"].split("::")[-2], k), ok, ctx.where(fn, c.get("ln")),
+            R.ob(rid, "%s|%s@%d" % (short, c["fn"].split("::")[-2], k), ok, ctx.where(f2, c.get("ln")),
                  "name built from a run-time string %s" % ("under is_valid_identifier" if ok else "WITHOUT is_valid_identifier: a key such as `end`, `1a` or `a-b` is emitted as a bare name (invalid Lua or another key)"))
         R.require(rid, "%s|floor" % short, k >= 1, ctx.where(fn), "%d guarded constructions in this function" % k)
     R.require(rid, "floor", n >= 3, "", "%d constructions checked (floor 3)" % n)
     # the fallback exists in the data serializer: TableIndexEntry with the string
     fn = lib.fn(SITES[0])
     if fn is not None:
-        ok = any(c.get("fname") == "new" and "TableIndexEntry" in (c.get("fn") or "") for c in thir.calls(fn))
+        ok = any(c.get("fname") == "new" and "TableIndexEntry" in (c.get("fn") or "") for f2, c in interproc.scope_calls(lib, fn))
         R.ob(rid, "complete_table_entry|bracket-fallback", ok, ctx.where(fn), "non-identifier keys become TableIndexEntry (`[\"key\"] = v`): %s" % ok)
 
 
@@ -196,18 +197,16 @@ def bracket(R, ctx):
     nq = lib.fn("generator::utils::needs_quoted_string")
     if not R.require(rid, "anchor", ws is not None and nq is not None, "", "write_string / needs_quoted_string not found"):
         return
-    fa = ctx.an.fa(ws["path"])
-    lb = [c for c in thir.calls(ws) if c.get("fname") == "write_long_bracket"]
+    # the long-bracket writer may be called from write_string itself or from a helper it calls; the gate may be a condition, a match
+    # guard, or a predicate function: it must (transitively) consult needs_quoted_string
+    M = guards.Mentions(ctx.an)
+    nq_pred = lambda n: n.get("k") in ("Call", "Zst") and (callee_of(n) or n.get("fn") or "").endswith("needs_quoted_string")
+    lb = [(f2, c) for f2, c in interproc.scope_calls(lib, ws) if c.get("fname") == "write_long_bracket"]
     if R.require(rid, "anchor:long-bracket-call", len(lb) >= 1, ctx.where(ws), "no call of write_long_bracket in write_string"):
-        for c in lb:
-            gated = False
-            for cond, kind in guards.conditions_of(fa, c):
-                for r in thir.fn_refs(cond):
-                    if (callee_of(r) or "").endswith("needs_quoted_string"):
-                        # polarity: reached on the `then` side of `!any(..)`
-                        neg = any(n.get("k") == "Unary" and n.get("op") == "Not" and any(x is r for x in thir.walk(n)) for n in thir.walk(cond))
-                        gated = gated or (kind == "then" and neg) or (kind in ("else", "early-exit") and not neg)
-            R.ob(rid, "long-bracket-gated", gated, ctx.where(ws, c.get("ln")), "write_long_bracket is reached only when no byte needs the quoted form: %s" % gated)
+        for f2, c in lb:
+            fa = ctx.an.fa(f2["path"])
+            gated = M.guarded(fa, c, nq_pred)
+            R.ob(rid, "long-bracket-gated", gated, ctx.where(f2, c.get("ln")), "write_long_bracket is reached only under a condition that consults needs_quoted_string: %s" % gated)
     body = thir.body_of(nq)
     params = [b[0] for prm in nq.get("params", []) for b in thir.pat_bindings(prm["pat"])] if nq.get("params") else []
     if not params:
